@@ -104,7 +104,7 @@ def _weighted(rng, table):
 def gen_op(rng, inflight, fair, scn, restarts):
     """Draw the next operation given the steps currently in flight."""
     if not fair and not scn["dry"] and rng.random() < 0.03:
-        return {"op": "cancel"}
+        return {"op": "cancel", "rc": "OK" if rng.random() < 0.6 else "ERROR"}
     if fair:
         reports = []
         for i in inflight:
@@ -213,7 +213,7 @@ def run_scenario(scn, root, rng=None, ops=None, max_ops=40, fair_from=None):
         if op["op"] == "poll":
             ret, ev = S.do_poll(g, op["code"], [tuple(r) for r in op["reports"]])
         else:
-            ret, ev = S.do_cancel(g)
+            ret, ev = S.do_cancel(g, op.get("rc", "OK"))
         o.ret = ret
         o.events = ev
         o.raw_events = list(S.WORLD.events)
